@@ -20,4 +20,6 @@ def enum_plans(tier):
     return [dict(cfg="A", depth=7 if th else 6, maxtime=3, alpha=["cerok", "send1", "sans"], faults=False, maxconn=1),
             # two applications each send over their own peer's connection; both connections draw the same hop-by-hop id;
             # answers in every order, also repeated
-            dict(cfg="TWOSAME", depth=5 if th else 4, maxtime=0, alpha=["send1", "sans"], faults=False, maxconn=2, prefix=two_ready_prefix())]
+            dict(cfg="TWOSAME", depth=5 if th else 4, maxtime=0, alpha=["send1", "sans"], faults=False, maxconn=2, prefix=two_ready_prefix()),
+            # requests naming a Destination-Host: the other application's peer, ready and in the same realm, stays ineligible
+            dict(cfg="TWOAPPS", depth=4 if th else 3, maxtime=1, alpha=["sendh", "sans"], faults=False, maxconn=2, prefix=two_ready_prefix())]
